@@ -72,9 +72,9 @@ class C16(PropertyCheck):
     def generate(self, rng, tier):
         cases = []
         quick = tier == "quick"
-        n_ok = 400 if quick else 4000
+        n_ok = 1500 if quick else 20000
         for _ in range(n_ok):
-            nf = rng.choice([0, 1, 2, 3, rng.randint(0, 12)])
+            nf = rng.choice([0, 1, 2, 3, rng.randint(1, 12), rng.randint(1, 12), rng.randint(1, 12)])
             files = rnd_files(rng, nf, 40)
             kw = dict(padded=rng.random() < 0.5, permute_bodies=rng.random() < 0.7, unaligned=rng.random() < 0.5, gaps=rng.random() < 0.4,
                       count_first=rng.random() < 0.5, extra_labels=rng.random() < 0.6, shuffle_tables=rng.random() < 0.5,
@@ -95,7 +95,7 @@ class C16(PropertyCheck):
             image, exp = txtfile.arc_write(base, rng, **kw)
             cases.append(Case(render(image, exp, base), "knob-grid"))
         # error variants
-        n_err = 150 if quick else 1500
+        n_err = 600 if quick else 8000
         for _ in range(n_err):
             nf = rng.randint(1, 6)
             files = rnd_files(rng, nf, 24)
